@@ -74,6 +74,7 @@ func init() { log.SetLevel(log.FATAL) }
 func FreshDevice() *vos.Device {
 	d := vos.NewDevice()
 	vos.Install(d)
+	vrt.ResetClock() // every case starts at the same virtual instant: executions are reproducible
 	d.SetLogging(false)
 	_ = d.MkdirAll(Outer, 0o770)
 	_ = d.WriteFile(Outer+"/SENTINEL", []byte("do not touch"), 0o600)
